@@ -131,3 +131,9 @@ fn f9_c11_relators_close_at_every_row() {
 fn f10_c11_base_row_survives_compaction() {
     closes(2, &[&[1, 1], &[2, 2], &[1, 2, 1, 2, 1, 2]], &[&[-2, -2, -2]], 3);   // S3, H = <b^-3> = <b>
 }
+
+#[test]
+fn f11_c10_rotating_the_empty_word() {
+    assert_eq!(FreeWord::empty().rotated(1), FreeWord::empty());
+    assert_eq!(FreeWord::from([1, -1]).rotated(-3), FreeWord::empty());
+}
